@@ -25,6 +25,9 @@ func skipInit(pp string) bool {
 		"encoding/gob", "encoding/xml", "html", "html/template", "text/template", "go/token", "crypto/rand", "math/big":
 		return true
 	}
+	if pp == "encoding/base64" || pp == "encoding/hex" || pp == "vendor/golang.org/x/net/http/httpguts" {
+		return false // small table-building initialisers the code under test depends on
+	}
 	if strings.HasPrefix(pp, "internal/") && pp != "internal/oserror" {
 		return true
 	}
@@ -221,6 +224,7 @@ func RunPath(mainpkg *ssa.Package, sizes types.Sizes, entry string, prefix []Dec
 	Sched = newSched(Cfg.Sched)
 	syncStates = map[*value]interface{}{}
 	gorAbort, crashedInGor, deadlockPending = nil, false, false
+	panicOrigin = ""
 	recvSeq = 0
 	resetModels()
 	q0, t0 := S.Queries, S.Time
@@ -250,10 +254,13 @@ func RunPath(mainpkg *ssa.Package, sizes types.Sizes, entry string, prefix []Dec
 					status, detail = "crash", "crash outside Crashable"
 				case targetPanic:
 					status, detail = "panic", toStringSafe(p.v)
+					if os.Getenv("GOSYM_STACK") != "" {
+						detail += " at" + panicOrigin
+					}
 				case runtime.Error:
 					status, detail = "panic", p.Error()
 					if os.Getenv("GOSYM_STACK") != "" {
-						detail += "\n" + string(debug.Stack())
+						detail += " at" + panicOrigin + "\n" + string(debug.Stack())
 					}
 				default:
 					status, detail = "unsupported", fmt.Sprintf("engine panic: %v", r)
